@@ -168,12 +168,14 @@ class Ctx:
 # recipes
 
 
-def _others(case, d, dt, label):
+def _others(case, d, dt, label, always=False):
     """other-operator operands with the same shape: same case (other values), diagonal family / dense / root family
     (these include parent-child class pairs, for which torch consults the *child's* __torch_function__ first)"""
     m, n = d.shape[-2:]
     batch = tuple(d.shape[:-2])
     out = []
+    if not always and not (dt == torch.float64 and len(batch) <= 1 and max(m, n) > 1) and case.name not in ("perm", "tperm"):
+        return out  # operator (.) operator combinations: float64, non-degenerate size, batch rank <= 1 (quick sub-grid)
     names = [case.name, "dense_rect" if m != n else "dense_psd"]
     if m == n:
         names += ["diag", "constdiag", "identity", "tri_lower", "chol_lower", "addeddiag", "kron_diag", "sum", "zero_rect" if False else "root"]
@@ -286,8 +288,9 @@ def _first_arg(cx, f, name, op, d, mk, g):
         cx.call(e, "op", lambda: f(op), lambda: meth(), lambda: f(d), scale=1e3, owned=False, dense_when=sq and case.psd)
         return True
     if f is torch.linalg.solve:
-        for tk, sh in {"mat": (n, 2), "vec": (n,), "batched": (*batch, n, 1)}.items():
-            if tk == "vec" and batch:
+        # (n, n+1) / (*batch, n, 1): shapes torch.linalg.solve cannot mistake for a batch of vectors
+        for tk, sh in {"mat": (n, n + 1), "vec": (n,), "batched": (*batch, n, 1)}.items():
+            if (tk == "vec" and batch) or (tk == "batched" and batch and batch[-1] == n == 1):
                 continue
             B = zoo.rn(g, *sh, dtype=dt)
             cx.call(e, "T_" + tk, lambda: f(mk(), B), lambda: getattr(mk(), name)(B), lambda: f(d, B), scale=1e3, owned=False, dense_when=sq and case.psd)
@@ -542,6 +545,8 @@ def rtc_dispatch(names, tier):
         # unregistered functions
         m, n = d.shape[-2:]
         X = zoo.rn(g, *d.shape, dtype=dt)
+        if tier == "quick" and not (len(d.shape) <= 3 and max(m, n) > 1):
+            continue
         for un, fn in unreg.items():
             ok, r = _run(lambda: fn(op, X))
             if ok:
